@@ -424,6 +424,7 @@ func (fs *fakeServer) serveRTSP(nc net.Conn, br *bufio.Reader, raw *simnet.Conn)
 				playStop = make(chan struct{})
 				ps := playStop
 				isTCP := tcp
+				setupsAtPlay := setups
 				dsts := append([]*net.UDPAddr(nil), udpDst...)
 				us := udpSock
 				afterSend = func() {
@@ -439,8 +440,42 @@ func (fs *fakeServer) serveRTSP(nc net.Conn, br *bufio.Reader, raw *simnet.Conn)
 							default:
 							}
 							pkt, _ := (&rtp.Packet{Header: rtp.Header{Version: 2, PayloadType: 96, SequenceNumber: uint16(k), Timestamp: uint32(k * 3000), SSRC: 0x11223344}, Payload: []byte{1, 2, 3, 4}}).Marshal()
+							// hostile media in a third of the runs: header fields that point beyond the packet
+							// (padding count, extension, CSRC count), truncated headers, on every channel
+							if x := core.HS(sc.Seed, "c12.hostilemedia", "", uint64(k)); core.HS(sc.Seed, "c12.hostilemedia.on", "", 0)%3 == 0 && x%5 == 0 {
+								switch (x >> 8) % 7 {
+								case 0:
+									pkt[0] |= 0x20
+									pkt[len(pkt)-1] = 200
+								case 1:
+									pkt[0] |= 0x20
+									pkt[len(pkt)-1] = byte(len(pkt) - 11)
+								case 2:
+									pkt[0] |= 0x10 // extension announced, none present
+								case 3:
+									pkt[0] |= 0x0f // 15 CSRCs announced
+								case 4:
+									pkt = pkt[:(x>>16)%12] // shorter than a header
+								case 5:
+									pkt[0] = 0x40 // version 1
+								case 6:
+									pkt[0] |= 0x20
+									pkt[len(pkt)-1] = 0
+								}
+								w.Fault("server.hostile_rtp")
+							}
 							if isTCP {
-								fr := base.InterleavedFrame{Channel: 0, Payload: pkt}
+								// every set-up channel gets media, a back channel's included (and now and then one
+								// that was never set up); the payload type is the one of the channel's media
+								ch := int((core.HS(sc.Seed, "c12.ch", "", uint64(k)) % 4) * uint64(2) % uint64(2*setupsAtPlay+2))
+								if len(pkt) >= 2 {
+									pt := byte(96 + ch/2)
+									if sc.BackChan && ch/2 == sc.Medias {
+										pt = 8
+									}
+									pkt[1] = pkt[1]&0x80 | pt
+								}
+								fr := base.InterleavedFrame{Channel: ch, Payload: pkt}
 								buf, _ := fr.Marshal()
 								nc.SetWriteDeadline(time.Now().Add(5 * time.Second))
 								if _, err := nc.Write(buf); err != nil {
